@@ -14,12 +14,13 @@
 (*                                                                         *)
 (* For each move  Flow(t) = sum_s W1(s) K(s,t)  must equal W1(t).          *)
 (***************************************************************************)
-EXTENDS Tables, Fp
+EXTENDS Tables, Fp, Rat, Json
 
 CONSTANTS N, OutlierOn,
           Move,                 \* "dp" | "prg" | "sub"
           SkipLoneOutlier,      \* FALSE as specified; TRUE = a lone outlier is never moved (deviation F5)
           RegraftDegreeFactor,  \* FALSE as specified; TRUE = attachment weight multiplied by (#children of target + 1) (deviation F6)
+          DumpRows,             \* print the single-step rows of every forest as exact rationals (conformance oracle)
           AllOutlierWhole       \* TRUE: on a tree whose data are all outliers the subtree move resamples the whole tree;
                                 \* FALSE: it cannot move (as implemented before the fix it raises, see C19) - deviation F7
 Data == 0..(N - 1)
@@ -109,6 +110,13 @@ Accumulate == /\ cur.has
               /\ acc' = [k \in Keys |-> [t \in All |-> FAdd(acc[k][t], FMul(W1(cur.src), cur.rows[k][t]))]]
               /\ todo' = todo \ {cur.src}
               /\ cur' = NoRow
+\* exact rational rows (conformance with the implementation's per-decision probability vectors)
+SumInt(C, wt(_)) == FoldSet(LAMBDA c, tot : wt(c) + tot, 0, C)
+DPRat(s, d) == LET C == DPCands(s, d)  Z == SumInt(C, W1) IN {[x |-> c, p |-> Red(W1(c), Z)] : c \in C}
+PRGRat(s, v) == IF RestF(s.f, v) = {} THEN {} ELSE
+                LET C == PRGCands(s, v)  Z == SumInt(C, LAMBDA e : W1(e.x)) IN {[x |-> e.x, p |-> Red(W1(e.x), Z)] : e \in C}
+RowsRec(s) == [s |-> s, dp |-> {[d |-> d, row |-> DPRat(s, d)] : d \in Data}, prg |-> {[v |-> v, row |-> PRGRat(s, v)] : v \in s.f}]
+EmitRows == (DumpRows /\ cur.has) => PrintT(ToJson(RowsRec(cur.src)))
 Next == Compute \/ Accumulate
 RowsSumToOne == cur.has => \A k \in Keys : FoldFunction(FAdd, 0, cur.rows[k]) = 1
 BadTargets == {<<k, t>> \in Keys \X All : acc[k][t] # W1(t) % P}
